@@ -62,6 +62,14 @@ PREF = {
        "thirds, integer versus true division, rounding of .5, negative values in floor division or modulo, counts above 2^31 / 2^53, values "
        "formatted and parsed back (1e+06, 1000000.0, '007'); (c) a DEFAULT that differs between two entry points of the same functionality "
        "(function default versus command line default versus class attribute). It must still be realistic and keep all 81 tests passing."),
+ 'm': ("PREFERRED this time, one of: (a) INPUT THAT ALREADY CARRIES WHAT THE TOOL ADDS, or comes from another tool's conventions - a BAM whose "
+       "header already has @RG / @PG / @CO lines or whose reads already carry RG and the tool's own tags from an earlier (different) run, read "
+       "names ending in /1 and /2, a header that claims another sort order, a stale index next to the file, FASTQ names with extra fields; (b) "
+       "SHAPE EXTREMES of the data - no read at all, exactly one read or one cell, every read identical, reads of length 1 or of 10 kb, a "
+       "single contig of length 1, thousands of tiny contigs, every read on the same position; (c) an OPTIMISATION that is right for the common "
+       "case only - an early `break` that relies on sorted input, a cache keyed by `id()` or by a value that is not unique, a binary search or "
+       "`bisect` with the wrong side, a pre-computed table or a vectorised (numpy) rewrite that differs for one dtype or for empty arrays. It "
+       "must still be realistic and keep all 81 tests passing."),
 }
 props = [json.loads(l) for l in open(os.path.join(V, 'properties.jsonl'))]
 tmpl = open('/tmp/agent_prompt_template.txt').read() if os.path.exists('/tmp/agent_prompt_template.txt') else None
